@@ -347,7 +347,10 @@ def run(ck):
     ck.trusted += [
         "C12: the PromQL engine, the participle parsers, fastjson/protobuf decoders and database/sql are exercised by the harness, not modelled",
         "C12: the LTS abstracts label maps, message text and float values; one LTS message per rows.Next(); real-time bounds are not proved (termination = no infinite schedule)",
-        "C12: allocation of more than 2^27 float64 is modelled as a failure (unreachable for accepted requests since the caps of 5180be1: theorem accepted_requests_have_safe_context); int64 wrap-around beyond 2^62 ns is not modelled",
+        "C12: allocation of more than 2^27 float64 is modelled as a failure (unreachable for accepted requests since the caps of 5180be1: theorem accepted_requests_have_safe_context); int64 wrap-around is modelled for the matrix window (d660aeb) and the subquery sums, not for the float -> int64 conversion of parameters beyond 2^63",
+        "C12: the PromQL engine's evaluator windows (a subquery is evaluated over the query window + its range + the ranges around it; one point reserved per step and series) are transcribed from the vendored promql/engine.go; PromQL durations are whole milliseconds",
+        "C12: translate/goinv_reader's control-flow models: may-panic is syntactic (calls outside a small safe list, index, slice, dereference, assertion, division, send); a deferred closure containing the release counts as a deferred release; one model per function body / literal (a lock handed to a callee is not followed)",
+        "C12: the live-tail LTS abstracts one tick's pipeline to its result (answer / error message / return) -- that pipeline is theorem tail_tick_pipeline_terminates -- and assumes time does not pass while a channel operation is ready (Go's select picks among the ready cases)",
         "C12: a Scan error in TempoService.Tags / Values / Search returns without rows.Close(): the result set is released by database/sql (Rows.awaitDone) when net/http cancels the request context -- modelled as the drainer of that cell",
         "C12: goroutine census (runtime.Stack) and the child-process crash/hang detection of harness/cmd/readfuzz",
         "C12: go/ast translator translate/goinv_reader (recover status, operation census by name-based call following inside a package)",
